@@ -1053,6 +1053,131 @@ theorem C05.adj_adj_partial (cj : K →+* K) (hcj : ∀ a, cj (cj a) = a) (I : K
         obtain ⟨r'', hr2, rr⟩ := ihr rest' hs.2 hl.2 er
         exact ⟨.pcons r c a'' r'', by simp [Impl.adj, ha2, hr2], by simp [Impl.run, ra, rr]⟩
 
+/-- shapes covered by `C05.adj_adj`: every expression class; a RIGHT scalar multiple only with a
+scalar that is not real (for a real scalar the double adjoint is a left multiple, equal to the
+right multiple only for a homogeneous operand) -/
+def OdlModel.Adjoint.Impl.aaShape (cj : K → K) (I : K) : Impl K → Prop
+  | .leaf _ => True
+  | .sum a b => a.aaShape cj I ∧ b.aaShape cj I
+  | .comp a b => a.aaShape cj I ∧ b.aaShape cj I
+  | .lscal a _ => a.aaShape cj I
+  | .rscal a s => a.aaShape cj I ∧ imK cj I (cj (cj s)) ≠ 0
+  | .lvec a _ => a.aaShape cj I
+  | .rvec a _ => a.aaShape cj I
+  | .flvec f _ _ _ => f.aaShape cj I
+  | .pnil _ _ _ => True
+  | .pcons _ _ a rest => a.aaShape cj I ∧ rest.aaShape cj I
+
+/-- `adj_adj`: for EVERY expression class (sums, compositions, left scalar multiples, right
+scalar multiples with a non-real scalar, left/right vector multiples with the conjugation
+rule of the code, FunctionalLeftVectorMult, block operators), unbounded depth:
+`A.adjoint.adjoint` exists and acts like `A` (equal as functions), provided this holds for the
+leaves (`leavesAA`, discharged by `leaf_adj_adj`) and the leaf adjoints have the transposed
+type (`leavesTyped`, discharged by `leaf_typed`; needed for the real/complex flag that decides
+the conjugation of the vector in the second adjoint). -/
+theorem C05.adj_adj (cj : K →+* K) (hcj : ∀ a, cj (cj a) = a) (I : K)
+    (him : ∀ s, imK cj I (cj s) = 0 → cj s = s) (t : Impl K) :
+    ∀ t', t.aaShape cj I → t.leavesAA cj I → t.leavesTyped cj I → t.adj cj I = some t' →
+      ∃ t'', t'.adj cj I = some t'' ∧ t''.run cj I = t.run cj I := by
+  induction t with
+  | leaf l => intro t' _ hl _ ha; exact hl t' ha
+  | sum a b iha ihb =>
+    intro t' hs hl ht ha
+    cases ea : a.adj cj I with
+    | none => simp [Impl.adj, ea] at ha
+    | some a' =>
+      cases eb : b.adj cj I with
+      | none => simp [Impl.adj, ea, eb] at ha
+      | some b' =>
+        simp [Impl.adj, ea, eb] at ha; subst ha
+        obtain ⟨a'', ha2, ra⟩ := iha a' hs.1 hl.1 ht.1 ea
+        obtain ⟨b'', hb2, rb⟩ := ihb b' hs.2 hl.2 ht.2 eb
+        exact ⟨.sum a'' b'', by simp [Impl.adj, ha2, hb2], by simp [Impl.run, ra, rb]⟩
+  | comp a b iha ihb =>
+    intro t' hs hl ht ha
+    cases ea : a.adj cj I with
+    | none => simp [Impl.adj, ea] at ha
+    | some a' =>
+      cases eb : b.adj cj I with
+      | none => simp [Impl.adj, ea, eb] at ha
+      | some b' =>
+        simp [Impl.adj, ea, eb] at ha; subst ha
+        obtain ⟨a'', ha2, ra⟩ := iha a' hs.1 hl.1 ht.1 ea
+        obtain ⟨b'', hb2, rb⟩ := ihb b' hs.2 hl.2 ht.2 eb
+        exact ⟨.comp a'' b'', by simp [Impl.adj, ha2, hb2], by simp [Impl.run, ra, rb]⟩
+  | lscal a s iha =>
+    intro t' hs hl ht ha
+    cases ea : a.adj cj I with
+    | none => simp [Impl.adj, ea] at ha
+    | some a' =>
+      simp [Impl.adj, ea] at ha; subst ha
+      obtain ⟨a'', ha2, ra⟩ := iha a' hs hl ht ea
+      by_cases hi : imK cj I (cj s) = 0
+      · simp only [hi, if_true]
+        by_cases hi2 : imK cj I (cj (cj s)) = 0
+        · exact ⟨.lscal a'' (cj (cj s)), by simp [Impl.adj, ha2, hi2], by simp [Impl.run, ra, hcj]⟩
+        · exact absurd (by rw [him s hi]; exact hi) hi2
+      · simp only [hi, if_false]
+        exact ⟨.lscal a'' (cj (cj s)), by simp [Impl.adj, ha2], by simp [Impl.run, ra, hcj]⟩
+  | rscal a s iha =>
+    intro t' hs hl ht ha
+    cases ea : a.adj cj I with
+    | none => simp [Impl.adj, ea] at ha
+    | some a' =>
+      simp [Impl.adj, ea] at ha; subst ha
+      obtain ⟨a'', ha2, ra⟩ := iha a' hs.1 hl ht ea
+      exact ⟨.rscal a'' (cj (cj s)), by simp [Impl.adj, ha2, hs.2], by simp [Impl.run, ra, hcj]⟩
+  | lvec a v iha =>
+    intro t' hs hl ht ha
+    cases ea : a.adj cj I with
+    | none => simp [Impl.adj, ea] at ha
+    | some a' =>
+      simp [Impl.adj, ea] at ha; subst ha
+      obtain ⟨a'', ha2, ra⟩ := iha a' hs hl ht ea
+      have hty := (C05.adj_type_tree cj I a a' ht ea).1
+      refine ⟨_, by simp only [Impl.adj, ha2, Option.bind_eq_bind, Option.bind_some,
+        Option.pure_def]; rfl, ?_⟩
+      funext x j i
+      by_cases hr : a.ran.real = true <;> simp [Impl.run, ra, hty, hr, hcj]
+  | rvec a v iha =>
+    intro t' hs hl ht ha
+    cases ea : a.adj cj I with
+    | none => simp [Impl.adj, ea] at ha
+    | some a' =>
+      simp [Impl.adj, ea] at ha; subst ha
+      obtain ⟨a'', ha2, ra⟩ := iha a' hs hl ht ea
+      have hty := (C05.adj_type_tree cj I a a' ht ea).2
+      refine ⟨_, by simp only [Impl.adj, ha2, Option.bind_eq_bind, Option.bind_some,
+        Option.pure_def]; rfl, ?_⟩
+      funext x
+      by_cases hr : a.dom.real = true <;> simp [Impl.run, ra, hty, hr, hcj]
+  | flvec f V F v ihf =>
+    intro t' hs hl ht ha
+    cases ea : f.adj cj I with
+    | none => simp [Impl.adj, ea] at ha
+    | some f' =>
+      simp [Impl.adj, ea] at ha; subst ha
+      obtain ⟨f'', hf2, rf⟩ := ihf f' hs hl ht ea
+      refine ⟨.comp (.leaf (.multField V F v)) f'', by simp [Impl.adj, Leaf.adj, hf2], ?_⟩
+      funext x j i
+      simp [Impl.run, Leaf.run, rf, mul_comm]
+  | pnil k d r =>
+    intro t' _ _ _ ha
+    simp [Impl.adj] at ha; subst ha
+    exact ⟨.pnil k.adj.adj d r, by simp [Impl.adj], by simp [Impl.run]⟩
+  | pcons r c a rest iha ihr =>
+    intro t' hs hl ht ha
+    cases ea : a.adj cj I with
+    | none => simp [Impl.adj, ea] at ha
+    | some a' =>
+      cases er : rest.adj cj I with
+      | none => simp [Impl.adj, ea, er] at ha
+      | some rest' =>
+        simp [Impl.adj, ea, er] at ha; subst ha
+        obtain ⟨a'', ha2, ra⟩ := iha a' hs.1 hl.1 ht.1 ea
+        obtain ⟨r'', hr2, rr⟩ := ihr rest' hs.2 hl.2 ht.2 er
+        exact ⟨.pcons r c a'' r'', by simp [Impl.adj, ha2, hr2], by simp [Impl.run, ra, rr]⟩
+
 /-- `leavesAA` (the leaf hypothesis of `adj_adj_partial`) holds for: Zero, Scaling/Identity,
 Multiply (space and field domain), InnerProduct, MatrixOperator (non-zero real weights),
 PointwiseInner(Adjoint), RealPart (real space, or complex space with real range),
@@ -1184,6 +1309,28 @@ example :
     ⟨C05.leaf_adj_adj (RingHom.id ℚ) (fun _ => rfl) 0 him (.matrix S S _)
         ⟨fun _ => by norm_num, fun _ => by norm_num, fun _ _ => rfl, fun _ _ => rfl⟩,
       C05.leaf_adj_adj (RingHom.id ℚ) (fun _ => rfl) 0 him (.scaling S 2) trivial⟩ h
+
+/-- Non-vacuity of `adj_adj` on vector multiples and FunctionalLeftVectorMult: for
+`w·(M(v·x)) + z·⟨x, u⟩` on `rn(2, weighting=1/2)` all hypotheses hold (`leaf_adj_adj`,
+`leaf_typed`), so the second adjoint exists and acts like the tree. -/
+example :
+    let S : Space ℚ := ⟨1, fun _ => 2, fun _ _ => 1 / 2, true⟩
+    let F : Space ℚ := fieldSpace true
+    let t : Impl ℚ := .sum
+      (.lvec (.rvec (.leaf (.matrix S S fun i k => (i : ℚ) - 2 * k)) fun _ i => (i : ℚ) + 1)
+        fun _ i => 3 - (i : ℚ))
+      (.flvec (.leaf (.inner S F fun _ i => (i : ℚ) + 2)) S F fun _ i => 5 * (i : ℚ) - 1)
+    ∀ t', t.adj (RingHom.id ℚ) 0 = some t' →
+      ∃ t'', t'.adj (RingHom.id ℚ) 0 = some t'' ∧
+        t''.run (RingHom.id ℚ) 0 = t.run (RingHom.id ℚ) 0 := by
+  intro S F t t' h
+  have him : ∀ s : ℚ, imK (RingHom.id ℚ) 0 ((RingHom.id ℚ) s) = 0 → (RingHom.id ℚ) s = s :=
+    fun _ _ => rfl
+  exact C05.adj_adj (RingHom.id ℚ) (fun _ => rfl) 0 him t t' ⟨trivial, trivial⟩
+    ⟨C05.leaf_adj_adj (RingHom.id ℚ) (fun _ => rfl) 0 him (.matrix S S _)
+        ⟨fun _ => by norm_num, fun _ => by norm_num, fun _ _ => rfl, fun _ _ => rfl⟩,
+      C05.leaf_adj_adj (RingHom.id ℚ) (fun _ => rfl) 0 him (.inner S F _) trivial⟩
+    ⟨C05.leaf_typed _ 0 (.matrix S S _) trivial, C05.leaf_typed _ 0 (.inner S F _) trivial⟩ h
 
 end
 
